@@ -233,7 +233,8 @@ pub fn run_req<'c>(cfg: &'c Config, wire_bytes: &[u8], ch: &Chunking, probes: &[
         }
         let buf = p.input_buffer();
         vensure!(!buf.is_empty(), "req-empty-input-buffer", "request parser not done but offers an empty input buffer after {fed} bytes");
-        let n = buf.len().min(ch.size(calls)).min(wire_bytes.len() - fed);
+        // long inputs (records near the 16-bit limit) scale the read sizes to keep a case cheap
+        let n = buf.len().min(ch.size(calls).saturating_mul(1 + wire_bytes.len() / 3000)).min(wire_bytes.len() - fed);
         buf[..n].copy_from_slice(&wire_bytes[fed..fed + n]);
         fed += n;
         let y = p.parse(n);
@@ -319,6 +320,10 @@ pub struct StreamOutcome {
 pub enum Policy {
     Buffered,
     Direct(usize),
+    /// buffered reading, but the caller selects the next stream (or none) as soon as this many
+    /// wire bytes have been fed - in the middle of whatever the parser is doing. Delivered data
+    /// then legitimately depends on the chunking; the bytes emitted toward the client do not.
+    EarlySwitch(usize),
 }
 
 pub fn run_stream(mut p: stream::Parser, wire_bytes: &[u8], mut pos: usize, ch: &Chunking, policy: Policy) -> Result<StreamOutcome, Fail> {
@@ -328,10 +333,21 @@ pub fn run_stream(mut p: stream::Parser, wire_bytes: &[u8], mut pos: usize, ch: 
     let mut output = Vec::new();
     let mut calls = 0usize;
     let mut idle_rounds = 0;
+    let mut switched = false;
     let terminal;
     loop {
         calls += 1;
         vensure!(calls < 20_000_000, "stream-livelock", "call budget exceeded");
+        if let Policy::EarlySwitch(at) = policy {
+            if !switched && pos >= at {
+                switched = true;
+                if let Some(s) = p.active_stream().map(u8::from) {
+                    take_buffered(&mut p, &mut delivered);
+                    let next = order.iter().position(|&x| x == s).and_then(|i| order.get(i + 1)).copied();
+                    vensure!(p.set_stream(next.map(rt)).is_ok(), "stream-advance-rejected", "early switch from {s} to {next:?} rejected");
+                }
+            }
+        }
         // make room
         if p.input_buffer().is_empty() {
             take_buffered(&mut p, &mut delivered);
@@ -343,14 +359,14 @@ pub fn run_stream(mut p: stream::Parser, wire_bytes: &[u8], mut pos: usize, ch: 
             Err(fastcgi_server::parser::Error::Interrupted) => vensure!(!boundary, "c03-conversion", "into_input() returned Interrupted at a record boundary"),
             Err(e) => vfail!("c03-conversion", "into_input() returned {:?}", err_kind(&e)),
         }
-        let n = p.input_buffer().len().min(ch.size(calls)).min(wire_bytes.len() - pos);
+        let n = p.input_buffer().len().min(ch.size(calls).saturating_mul(1 + wire_bytes.len() / 3000)).min(wire_bytes.len() - pos);
         let room = !p.input_buffer().is_empty();
         p.input_buffer()[..n].copy_from_slice(&wire_bytes[pos..pos + n]);
         pos += n;
         let active = p.active_stream().map(u8::from);
         let out_before = p.output_buffer().len();
         let res = match policy {
-            Policy::Buffered => p.parse(n, None),
+            Policy::Buffered | Policy::EarlySwitch(_) => p.parse(n, None),
             Policy::Direct(cap) => {
                 take_buffered(&mut p, &mut delivered);
                 let mut d = vec![0u8; cap];
@@ -389,7 +405,7 @@ pub fn run_stream(mut p: stream::Parser, wire_bytes: &[u8], mut pos: usize, ch: 
             },
             Ok(st) => {
                 vensure!(p.output_buffer().len() == out_before + st.output, "stream-output-count", "Status.output {} but output_buffer grew by {}", st.output, p.output_buffer().len() - out_before);
-                if matches!(policy, Policy::Buffered) {
+                if matches!(policy, Policy::Buffered | Policy::EarlySwitch(_)) {
                     take_buffered(&mut p, &mut delivered);
                     p.compress();
                 }
@@ -445,6 +461,7 @@ pub fn test(c: &Case) -> TestResult {
     let cfg = syncdrv::config(c.buf as usize, c.max_conns as usize);
     let mut reference: Option<(ReqRes, Vec<u8>)> = None;
     let mut stream_ref: Option<StreamOutcome> = None;
+    let mut early_ref: Option<StreamOutcome> = None;
     let mut label_outcome = "";
     let mut max_calls = 0;
     let mut stream_phase = false;
@@ -480,6 +497,19 @@ pub fn test(c: &Case) -> TestResult {
                 Ok(sp) => sp,
                 Err(e) => vfail!("c03-chunking-dependent", "{ctx} into_stream_parser failed after into_request succeeded: {:?}", err_kind(&e)),
             };
+            // early stream switch at a byte position inside the body: only what goes to the
+            // client (replies) and the terminal state must be chunking-independent
+            {
+                let at = fed.max(ReqConsumed::of(&reference)) + (c.dest_cap as usize % 97);
+                let so = run_stream(sp.clone(), &wire_bytes, fed, ch, Policy::EarlySwitch(at)).map_err(|f| Fail::new(f.sig, format!("{ctx} early switch at byte {at}: {}", f.msg)))?;
+                match &early_ref {
+                    None => early_ref = Some(so),
+                    Some(r) => {
+                        vensure!(r.output == so.output, "c03-chunking-dependent", "{ctx} early stream switch at byte {at}: {} bytes emitted toward the client, {} under {:?}", so.output.len(), r.output.len(), c.chunkings[0]);
+                        vensure!(std::mem::discriminant(&r.terminal) == std::mem::discriminant(&so.terminal), "c03-chunking-dependent", "{ctx} early stream switch at byte {at}: ended with {:?}, under {:?} with {:?}", so.terminal, c.chunkings[0], r.terminal);
+                    },
+                }
+            }
             for policy in [Policy::Buffered, Policy::Direct((c.dest_cap as usize).max(1))] {
                 let so = run_stream(sp.clone(), &wire_bytes, fed, ch, policy).map_err(|f| Fail::new(f.sig, format!("{ctx} {policy:?} {}", f.msg)))?;
                 match &stream_ref {
@@ -508,6 +538,7 @@ pub fn test(c: &Case) -> TestResult {
             }
         }
     }
+    let _ = &early_ref;
     let term_label = match stream_ref.as_ref().map(|s| &s.terminal) {
         Some(Terminal::Quiescent) => "stream-quiescent",
         Some(Terminal::Stuck) => "stream-stuck",
@@ -523,6 +554,17 @@ pub fn test(c: &Case) -> TestResult {
         .label_if(matches!(c.base, Base::Random(_)), "base-random")
         .label_if(matches!(c.base, Base::RandomRecords(_)), "base-random-records")
         .label_if(matches!(c.base, Base::Traffic { .. }), "base-traffic"))
+}
+
+struct ReqConsumed;
+impl ReqConsumed {
+    /// byte offset at which the preamble ended (so that the switch point is the same for every chunking)
+    fn of(r: &Option<(ReqRes, Vec<u8>)>) -> usize {
+        match r {
+            Some((ReqRes::Ok { consumed, .. }, _)) => *consumed,
+            _ => 0,
+        }
+    }
 }
 
 fn short(r: &ReqRes) -> String {
@@ -599,7 +641,7 @@ pub fn case_strategy() -> BoxedStrategy<Case> {
     (
         base(),
         proptest::collection::vec(mutation(), 0..4),
-        prop_oneof![2 => Just(0u32), 2 => Just(64u32), 2 => Just(512u32), 3 => Just(8192u32), 1 => 24u32..2000],
+        prop_oneof![4 => Just(0u32), 4 => Just(64u32), 4 => Just(512u32), 6 => Just(8192u32), 2 => 24u32..2000, 1 => Just(70000u32), 1 => Just(140000u32)],
         prop_oneof![Just(1u32), 1u32..10000],
         (gen::chunking(), gen::chunking()),
         1u16..=700,
